@@ -2,14 +2,14 @@
 # usage: tools_eval_seed.sh <ID> [check ids...]  -- evaluates a sub-agent's change living in /tmp/mut/<ID> (+ /tmp/mut/out/<ID>)
 # 1. suite passes with the change  2. demo fails with / passes without  3. run the listed checks (default: <ID>) against the changed tree
 id=$1; shift; checks=${@:-$id}
-wt=/tmp/mut/$id; out=/tmp/mut/out/$id
+base=${MUTDIR:-/tmp/mut}; wt=$base/$id; out=$base/out/$id
 cd $wt || exit 9
 git checkout -q -- . ; git apply $out/patch.diff || { echo "PATCH DOES NOT APPLY"; exit 9; }
 echo "== diffstat"; git diff --stat | tail -3
 echo "== suite with change"; /venv/bin/python -m pytest -q -p no:cacheprovider --timeout=900 2>&1 | tail -1
-echo "== demo with change"; PYTHONPATH=$wt timeout 120 /venv/bin/python $out/demo.py >/tmp/mut/out/$id/demo_with.log 2>&1; echo "exit=$?"
+echo "== demo with change"; PYTHONPATH=$wt timeout 120 /venv/bin/python $out/demo.py >$out/demo_with.log 2>&1; echo "exit=$?"
 git checkout -q -- .
-echo "== demo without change"; PYTHONPATH=$wt timeout 120 /venv/bin/python $out/demo.py >/tmp/mut/out/$id/demo_without.log 2>&1; echo "exit=$?"
+echo "== demo without change"; PYTHONPATH=$wt timeout 120 /venv/bin/python $out/demo.py >$out/demo_without.log 2>&1; echo "exit=$?"
 git apply $out/patch.diff
 cd /verif
 for c in $checks; do
